@@ -346,6 +346,11 @@ class MTr:
                 x = self.fresh("seeds")
                 pre.append(f"{x} <- p_get_seeds c ;;")
                 return V(x, "cmap")
+            if d == "self._next_child_id" and self.ctx == "tree" and len(args) == 1 and not e.keywords:
+                v = self._expr(args[0], env, pre)
+                if v.ty != "deme":
+                    self.bad(e, "_next_child_id argument")
+                return V(v.code, "childid")       # the id gen_next_child_id computes for a child of that deme (ids are not machine state)
             if d == "init_from_config":
                 kw = {k.arg: k.value for k in e.keywords}
                 if args or not {"config", "target_level", "metaepoch_count", "sprout_seed", "parent_deme"} <= set(kw):
@@ -354,8 +359,11 @@ class MTr:
                 seed, par = self._expr(kw["sprout_seed"], env, pre), self._expr(kw["parent_deme"], env, pre)
                 if (cfgv.ty, tl.ty, mc.ty, seed.ty, par.ty) != ("levelcfg", "nat", "nat", "ind", "deme"):
                     self.bad(e, f"init_from_config argument types {(cfgv.ty, tl.ty, mc.ty, seed.ty, par.ty)}")
+                nid = self._expr(kw["new_id"], env, pre) if "new_id" in kw else None
+                if nid is None or nid.ty != "childid" or nid.code != par.code:
+                    self.bad(e, "init_from_config new_id (must be self._next_child_id(<the parent the child is built for>))")
                 for k, val in kw.items():
-                    if k not in ("config", "target_level", "metaepoch_count", "sprout_seed", "parent_deme") and not self.opaque_ok(val, env):
+                    if k not in ("config", "target_level", "metaepoch_count", "sprout_seed", "parent_deme", "new_id") and not self.opaque_ok(val, env):
                         self.bad(e, "init_from_config argument with effects")
                 x = self.fresh("ch")
                 pre.append(f"{x} <- p_init_from_config {cfgv.code} {tl.code} {mc.code} ;;")
@@ -490,7 +498,7 @@ class MTr:
             env = dict(env)
             if isinstance(t, ast.Name):
                 pre, v = self.expr(s.value, env)
-                if v.ty == "opaque":
+                if v.ty in ("opaque", "childid"):
                     env[t.id] = v
                     return " ".join(pre) + " " + go(env)
                 if not pre and v.ty in ("bool", "nat") and not re.search(r"\b(s\d+|v_\w+|it\d+|n\d+|b\d+|ch\d+|x\d+)\b", v.code):
@@ -791,6 +799,72 @@ def prop_listcomp(mod, cls, name, src):
             f"  flat_map (fun v_{lv.id} => filter (fun v_{dm.id} => {cond}) (level_ids ds v_{lv.id})) (seq 0 {n}).\n")
 
 
+def next_child_id(mod):
+    """DemeTree._next_child_id: ids as paths of numbers ("root" = [], "3" = [3], "3/7" = [3; 7])"""
+    from .lazy import Inliner
+    fn = normalise(find_def(mod, "_next_child_id", "DemeTree"))
+    argn = [a.arg for a in fn.args.args]
+    if len(argn) != 2:
+        raise Unsupported(f"{TREE}:{fn.lineno}: _next_child_id signature {argn}")
+    dn = argn[1]
+    inl = Inliner(fn, TREE)
+    body = [s_ for s_ in fn.body if not (isinstance(s_, ast.Expr) and isinstance(s_.value, ast.Constant))]
+    guard = None
+    rets = []
+
+    def lvl(e):
+        u = ast.unparse(e)
+        tab = {f"{dn}.level": "(d_lvl (dnth p ds))", f"{dn}._level": "(d_lvl (dnth p ds))", "self.height": "(height c)", "len(self.levels)": "(height c)", "len(self._levels)": "(height c)"}
+        if u in tab:
+            return tab[u]
+        if isinstance(e, ast.Constant) and type(e.value) is int and 0 <= e.value < 100:
+            return str(e.value)
+        if isinstance(e, ast.BinOp) and isinstance(e.op, (ast.Add, ast.Sub)):
+            return f"({lvl(e.left)} {'+' if isinstance(e.op, ast.Add) else '-'} {lvl(e.right)})"
+        raise Unsupported(f"{TREE}:{e.lineno}: _next_child_id: unsupported number {u[:100]}")
+
+    def suffix(e):
+        e = inl.inline_at(e) if isinstance(e, ast.Name) else e
+        if isinstance(e, ast.Call) and dotted(e.func) == "len" and len(e.args) == 1 and isinstance(e.args[0], ast.Subscript) and dotted(e.args[0].value) in ("self._levels", "self.levels"):
+            return f"(length (level_ids ds {lvl(e.args[0].slice)}))"
+        raise Unsupported(f"{TREE}:{getattr(e, 'lineno', '?')}: _next_child_id: unsupported id suffix {ast.unparse(e)[:100]}")
+
+    def idexpr(e):
+        if isinstance(e, ast.Call) and dotted(e.func) == "str" and len(e.args) == 1:
+            return f"[{suffix(e.args[0])}]"
+        if isinstance(e, ast.JoinedStr) and len(e.values) == 3 and isinstance(e.values[0], ast.FormattedValue) and ast.unparse(e.values[0].value) in (f"{dn}.id", f"{dn}._id") \
+                and isinstance(e.values[1], ast.Constant) and e.values[1].value == "/" and isinstance(e.values[2], ast.FormattedValue):
+            return f"(pid ++ [{suffix(e.values[2].value)}])"
+        raise Unsupported(f"{TREE}:{e.lineno}: _next_child_id: unsupported id {ast.unparse(e)[:100]}")
+
+    def cond(t):
+        if isinstance(t, ast.Compare) and len(t.ops) == 1:
+            a, b = t.left, t.comparators[0]
+            if ast.unparse(a) in (f"{dn}.id", f"{dn}._id") and isinstance(b, ast.Constant) and b.value == "root" and isinstance(t.ops[0], (ast.Eq, ast.NotEq)):
+                return "(is_root pid)" if isinstance(t.ops[0], ast.Eq) else "(negb (is_root pid))"
+            tab = {ast.GtE: "Nat.leb {1} {0}", ast.Gt: "Nat.ltb {1} {0}", ast.LtE: "Nat.leb {0} {1}", ast.Lt: "Nat.ltb {0} {1}", ast.Eq: "Nat.eqb {0} {1}"}
+            if type(t.ops[0]) in tab:
+                return "(" + tab[type(t.ops[0])].format(lvl(a), lvl(b)) + ")"
+        raise Unsupported(f"{TREE}:{t.lineno}: _next_child_id: unsupported test {ast.unparse(t)[:100]}")
+
+    def block(stmts):
+        if not stmts:
+            raise Unsupported(f"{TREE}:{fn.lineno}: _next_child_id falls off its end")
+        s_, rest = stmts[0], stmts[1:]
+        if isinstance(s_, ast.Assign) and len(s_.targets) == 1 and isinstance(s_.targets[0], ast.Name):
+            return block(rest)       # temporaries are looked through (Inliner)
+        if isinstance(s_, ast.Return) and s_.value is not None:
+            v = inl.inline(s_.value, s_) if isinstance(s_.value, ast.Name) else s_.value
+            return f"Some {idexpr(v)}"
+        if isinstance(s_, ast.Raise):
+            return "None"
+        if isinstance(s_, ast.If):
+            return f"(if {cond(s_.test)} then {block(list(s_.body) + rest)} else {block(list(s_.orelse) + rest)})"
+        raise Unsupported(f"{TREE}:{s_.lineno}: _next_child_id: unsupported statement {ast.unparse(s_)[:100]}")
+    return ("Definition is_root (pid : list nat) : bool := match pid with [] => true | _ => false end.\n"
+            "Definition gen_next_child_id (c : cfg) (ds : list deme) (p : nat) (pid : list nat) : option (list nat) :=\n  " + block(body) + ".\n")
+
+
 def translate(repo):
     out = ["(* GENERATED from pyhms/tree.py and pyhms/demes/*_deme.py by hv/translate/driver_py.py — do not edit *)",
            "From Coq Require Import List Bool Arith ZArith.", "From HV Require Import Ord Sprout Tree DriverPrim.", "Import ListNotations.", ""]
@@ -832,4 +906,6 @@ def translate(repo):
     out.append(wrap("gen_tree_run_step", "", tmod, "DemeTree", "run_step", TREE, "tree", []))
     out.append(wrap("gen_tree_run", "", tmod, "DemeTree", "run", TREE, "tree", []))
     fns += [f"{TREE}:DemeTree.{m}" for m in ("run_metaepoch", "_do_sprout", "run_sprout", "run_step", "run")]
+    out.append(next_child_id(tmod))
+    fns.append(f"{TREE}:DemeTree._next_child_id")
     return {"GenDriver.v": "\n".join(out)}, fns
